@@ -35,6 +35,33 @@ pub fn model_hash(pin: u32, seed: u32, server_salt: &[u8; 16], client_salt: &[u8
     Some(sha1(&[client_salt, &inner]))
 }
 
+/// The scheme applied to a digit string of any length (what a PIN without a hash "would" hash to).
+fn hash_of_digits(d: &[u8], seed: u32, server_salt: &[u8; 16], client_salt: &[u8; 16]) -> [u8; 20] {
+    let lay = layout(seed);
+    let ascii: Vec<u8> = d.iter().map(|x| lay.iter().position(|y| y == x).unwrap() as u8 + 0x30).collect();
+    let inner = sha1(&[server_salt, &ascii]);
+    sha1(&[client_salt, &inner])
+}
+
+/// A PIN that has no hash must not verify against anything: the hashes of stand-in PINs a careless implementation might
+/// substitute (longest, shortest, padded, zero-extended ...), and the would-be hash of its own short digit string.
+fn invalid_pin_sweep(rep: &mut Rep, pin: u32, seed: u32, ss: &[u8; 16], cs: &[u8; 16]) {
+    let d = digits(pin);
+    let mut cands: Vec<[u8; 20]> = vec![[0u8; 20], [0xff; 20], hash_of_digits(&d, seed, ss, cs), hash_of_digits(&[], seed, ss, cs)];
+    let mut padded = vec![0u8; 4usize.saturating_sub(d.len())];
+    padded.extend_from_slice(&d);
+    cands.push(hash_of_digits(&padded, seed, ss, cs));
+    for stand_in in [u32::MAX, u32::MAX - 1, 1000, 1001, 9999, 10_000, 1_000_000_000, 999_999_999, 4_000_000_000, 1234, 1111, pin + 1000, pin.wrapping_mul(10), pin.wrapping_mul(1000), 1000 * (pin % 10 + 1), 2_147_483_647, 2_147_483_648] {
+        if let Some(h) = model_hash(stand_in, seed, ss, cs) {
+            cands.push(h);
+        }
+    }
+    for h in cands {
+        judge_verify(rep, pin, seed, ss, cs, &h, "invalid_pin_stand_in_hash");
+    }
+    rep.count("invalid_pin_stand_in_sweeps", 1);
+}
+
 pub fn self_check() -> Result<u64, String> {
     let p = format!("{}/pin/regression.txt", VECTORS_DIR);
     let s = std::fs::read_to_string(&p).map_err(|e| format!("{}: {}", p, e))?;
@@ -275,6 +302,7 @@ neighbouring PINs' hashes, invalid PINs. distinct = distinct (pin, seed mod 10!)
                 } else {
                     let any: [u8; 20] = rng.arr();
                     judge_verify(&mut rep, pin, sd, &ss, &cs, &any, "invalid_pin_any_hash");
+                    invalid_pin_sweep(&mut rep, pin, sd, &ss, &cs);
                 }
             }
             if i % 512 == 0 {
@@ -294,6 +322,24 @@ neighbouring PINs' hashes, invalid PINs. distinct = distinct (pin, seed mod 10!)
                     (pin / 10, sd, ss, cs),
                     (pin, sd, ss, cs),
                 ];
+                // a refused call (PIN without a hash) with a seed not seen before sits between two valid calls: the call after
+                // it uses that same new seed
+                {
+                    let s_new = rng.next() as u32;
+                    let valid = 1000 + rng.below(4_000_000) as u32;
+                    judge(&mut rep, valid, sd, &ss, &cs, "around_a_refused_call");
+                    if i % 1024 == 0 {
+                        judge(&mut rep, rng.below(1000) as u32, s_new, &ss, &cs, "around_a_refused_call");
+                    } else {
+                        judge_verify(&mut rep, rng.below(1000) as u32, s_new, &ss, &cs, &[0x11; 20], "around_a_refused_call");
+                    }
+                    let h2 = judge(&mut rep, valid, s_new, &ss, &cs, "around_a_refused_call");
+                    if let Some(h2) = h2 {
+                        judge_verify(&mut rep, valid, s_new, &ss, &cs, &h2, "around_a_refused_call");
+                    }
+                    invalid_pin_sweep(&mut rep, rng.below(1000) as u32, s_new, &ss, &cs);
+                    rep.count("refused_call_between_valid_calls", 1);
+                }
                 for (p2, s2, a2, b2) in rel {
                     judge(&mut rep, p2, s2, &a2, &b2, "related_consecutive");
                     if let Some(hh) = model_hash(p2, s2, &a2, &b2) {
